@@ -253,6 +253,15 @@ def ho_pattern(r, g):
         pat = Comb(Comb(conj, Comb(Comb(eqA, av), av)), Comb(Pp, Comb(f, av)))
         t = Comb(Comb(conj, Comb(Comb(eqA, ta), ta)), Comb(Pp, tb))
         return pat, t, 'applied-to-matched'
+    if c < 0.85:
+        # heuristic branch under a binder: the head must not take a bound variable along
+        g2 = Var('g', TFun(A, A, B))
+        f = SVar('f', TFun(A, B))
+        av = SVar('a', A)
+        cst = Var('c', A)
+        pat = Abs('x', A, Comb(f, av))
+        t = Abs('x', A, Comb(Comb(g2, Bound(0)), cst)) if r.random() < 0.6 else Abs('x', A, Comb(Comb(g2, cst), Bound(0)))
+        return pat, t, 'heuristic-under-binder'
     # heuristic branch: ?f applied to a non-variable
     f = SVar('f', TFun(A, B))
     h = Var('h', TFun(A, B))
@@ -341,6 +350,8 @@ def run_check(tier, seed):
     for i in range(m):
         p, t, kind = ho_pattern(r, g)
         inst0 = Inst()
+        if kind == 'heuristic-under-binder' and r.random() < 0.7:
+            inst0['a'] = Var('c', p.var_T)
         res, err, modified = try_match(p, t, inst0)
         run.stat('ho:' + kind + (':match' if res is not None else ':' + str(err)))
         if modified:
